@@ -33,8 +33,8 @@ func c05CLIEval(c *fw.Ctx, k c05CLICase) (sig, desc string) {
 	root := filepath.Join(c.Dir, "c05cli")
 	os.RemoveAll(root)
 	l := wsp.Layout{Archs: wsp.ParseLayout("1s:200s,100s:400s"), Method: 2, XFF: 0}
-	if k.Big { // more than 4096 points to write in one run
-		l = wsp.Layout{Archs: wsp.ParseLayout("1s:6000s,100s:12000s"), Method: 2, XFF: 0}
+	if k.Big { // more than 16384 points to write in one run (20400 slots)
+		l = wsp.Layout{Archs: wsp.ParseLayout("1s:20000s,100s:40000s"), Method: 2, XFF: 0}
 	}
 	now := int64(1700000123)
 	src := EmptyRings(l)
@@ -58,7 +58,7 @@ func c05CLIEval(c *fw.Ctx, k c05CLICase) (sig, desc string) {
 	if k.Fault == "layout-mismatch" {
 		dl = wsp.Layout{Archs: wsp.ParseLayout("1s:200s,100s:500s"), Method: 2}
 		if k.Big {
-			dl = wsp.Layout{Archs: wsp.ParseLayout("1s:6000s,100s:12100s"), Method: 2}
+			dl = wsp.Layout{Archs: wsp.ParseLayout("1s:20000s,100s:40100s"), Method: 2}
 		}
 		dst = EmptyRings(dl)
 		dst[0][5] = wsp.Slot{T: uint32(now - now%1), V: 3}
@@ -142,7 +142,7 @@ func c05CLI(c *fw.Ctx) {
 						}
 						k := c05CLICase{CLI: cli, Fault: fault, Fill: fill, Arch: arch, NaN: nan}
 						if nan && fill == 1 && arch == -1 || cli == "sum-copy" && fill == 1 && arch == -1 {
-							// once per command and fault: 6120 slots, more than 4096 points to write
+							// once per command and fault: 20400 slots, far more points than any plausible flush threshold
 							kb := k
 							kb.Big = true
 							if sig, desc := c05CLIEval(c, kb); sig != "" {
